@@ -41,6 +41,7 @@ type listener struct{ calls int }
 func (l *listener) OnViewChanged(bool) { l.calls++ }
 
 type world struct {
+	tol  time.Duration // configured sign tolerance (0 = the default 5 s)
 	sub  time.Duration // sub-second part of the view start time (the clock is not aligned to seconds)
 	n    int
 	keys []*dposkit.Key
@@ -79,7 +80,11 @@ type outcome struct {
 func (w *world) run(ver int, o0 uint32, times []time.Duration) outcome {
 	l := &listener{}
 	base := t0.Add(w.sub)
-	v := manager.VerifNewView(w.arbs, w.keys[0].PK, tolerance, base, l)
+	tol := tolerance
+	if w.tol != 0 {
+		tol = w.tol
+	}
+	v := manager.VerifNewView(w.arbs, w.keys[0].PK, tol, base, l)
 	off := o0
 	var out outcome
 	for i, t := range times {
@@ -93,7 +98,7 @@ func (w *world) run(ver int, o0 uint32, times []time.Duration) outcome {
 		default:
 			// an evaluation exactly on the gate edge is deferred by the strict comparison on
 			// purpose (it fires one nanosecond later); such schedules are not compared
-			if now.Equal(v.GetViewStartTime().Add(tolerance)) {
+			if now.Equal(v.GetViewStartTime().Add(tol)) {
 				out.Edge = true
 			}
 			if ver == 2 {
@@ -246,6 +251,7 @@ type caseT struct {
 	Offset  uint32  `json:"start_offset"`
 	TimesNs []int64 `json:"times_ns"` // intermediate evaluation instants then T (elapsed since view start)
 	SubNs   int64   `json:"view_start_subsecond_ns,omitempty"`
+	TolNs   int64   `json:"sign_tolerance_ns,omitempty"`
 }
 
 // versions: 0 ChangeView, 1 ChangeViewV1, 2 TryChangeView, 3 TryChangeViewV1 (the polling entry
@@ -321,7 +327,7 @@ func (w *world) compare(r *sink, ver int, o0 uint32, times []time.Duration, one 
 	r.Violate(fmt.Sprintf("C26|polling-dependence|%s|%s", verName(ver), class),
 		fmt.Sprintf("%s, %d arbiters, start offset %d, elapsed %v: one evaluation gives offset %d remainder %v onDuty %v; evaluating at %v first gives offset %d remainder %v onDuty %v",
 			verName(ver), w.n, o0, times[len(times)-1], one.Offset, one.Rem, one.OnDuty, times[:len(times)-1], ch.Offset, ch.Rem, ch.OnDuty),
-		caseT{Ver: ver, N: w.n, Offset: o0, TimesNs: ns, SubNs: int64(w.sub)})
+		caseT{Ver: ver, N: w.n, Offset: o0, TimesNs: ns, SubNs: int64(w.sub), TolNs: int64(w.tol)})
 }
 
 func (w *world) onDutyRef(off uint32) bool {
@@ -358,6 +364,7 @@ func main() {
 		sig := r.LoadReplay(&c)
 		w := newWorld(c.N, all)
 		w.sub = time.Duration(c.SubNs)
+		w.tol = time.Duration(c.TolNs)
 		times := make([]time.Duration, len(c.TimesNs))
 		for i, t := range c.TimesNs {
 			times[i] = time.Duration(t)
@@ -401,6 +408,18 @@ func main() {
 				for o0 := 0; o0 <= 3*n; o0++ {
 					jobs = append(jobs, job{w, ver, uint32(o0)})
 				}
+			}
+		}
+	}
+	// configured sign tolerances other than 5 s (ChangeViewV1 hard-codes 5 s views inside the
+	// first round whatever the tolerance is; the direct entry point only: the Try gate itself
+	// uses the tolerance)
+	for _, tol := range []time.Duration{3 * time.Second, 8 * time.Second, 10 * time.Second} {
+		for _, n := range []int{3, 12} {
+			w := newWorld(n, all)
+			w.tol = tol
+			for o0 := 0; o0 <= 3*n; o0++ {
+				jobs = append(jobs, job{w, 1, uint32(o0)})
 			}
 		}
 	}
@@ -498,7 +517,7 @@ func main() {
 	ncCases, ncMoved, ncSample := nchangeFamily(r, ns, all, r.Pick(60, 150))
 	samples.Add(ncSample)
 	r.Assume = append(r.Assume,
-		"sign tolerance fixed at 5 s (the only value the node uses by default); arbiter list supplied by state.ArbitratorsMock (the view only reads its size and the on-duty key)",
+		"sign tolerance 5 s (the default) everywhere, plus 3, 8 and 10 s for ChangeViewV1 with 3 and 12 arbiters; arbiter list supplied by state.ArbitratorsMock (the view only reads its size and the on-duty key)",
 		"TryChangeView/TryChangeViewV1 (strict 'after' gate in front of the same computation): schedules in which an evaluation falls exactly on viewStart+tolerance are not compared — the gate defers by one nanosecond by design",
 		"elapsed times are non-negative and below 2^53 ns")
 	finish(evid.Coverage{
@@ -506,7 +525,7 @@ func main() {
 		"distinct_nontrivial":                           ct.bothAdvanced + ncMoved,
 		"arbiter_count_change_cases":                    ncCases,
 		"arbiter_count_change_cases_offset_moved_after": ncMoved,
-		"rule":                fmt.Sprintf("versions {ChangeView, ChangeViewV1} x arbiter counts %v x start offsets 0..3n (plus, for n in {2,12} and a 60 s grid, view start times 0.2 s and 0.8 s past the full second; plus, for n in {2,12} and a 100 s grid, the polling entry points TryChangeView / TryChangeViewV1, schedules with an evaluation exactly on the strict gate edge viewStart+tolerance excluded) x instants {1 s grid 0..%d s} ∪ {b-1ns,b,b+1ns for every boundary b of the first 2n+3 views under the one-shot and under the evaluate-at-every-boundary schedule, located by bisection on the real code}; polling schedules: one evaluation at T vs one intermediate evaluation at every earlier instant (thorough: also two intermediate evaluations over boundary instants + 7 s grid, first 150). non-trivial = chained schedules (all distinct) in which the intermediate evaluation moved the offset and the final evaluation moved it again. Family B (long-lived view across an arbiter-count change): both versions x every ordered pair n1 != n2 of the same counts x start offsets {0,1,n1-1,n1,n1+1,n2-1,n2,n2+1,2n1,3n1} x {no reset, ResetView + offset 0 at the change} x every pair t1 < t2 of {1 s grid 0..%d s} ∪ {boundary instants (up to 1200 s) of the first 6 views under n1 and under n2}: the view evaluated at t1 under n1 and at t2 under n2 vs a fresh view with the same offset/start time that only saw n2, evaluated at t2; non-trivial = cases whose post-change evaluation moved the offset", ns, gridS, r.Pick(60, 150)),
+		"rule":                fmt.Sprintf("versions {ChangeView, ChangeViewV1} x arbiter counts %v x start offsets 0..3n (plus, for ChangeViewV1 with n in {3,12} and a 60 s grid, sign tolerances 3, 8 and 10 s; plus, for n in {2,12} and a 60 s grid, view start times 0.2 s and 0.8 s past the full second; plus, for n in {2,12} and a 100 s grid, the polling entry points TryChangeView / TryChangeViewV1, schedules with an evaluation exactly on the strict gate edge viewStart+tolerance excluded) x instants {1 s grid 0..%d s} ∪ {b-1ns,b,b+1ns for every boundary b of the first 2n+3 views under the one-shot and under the evaluate-at-every-boundary schedule, located by bisection on the real code}; polling schedules: one evaluation at T vs one intermediate evaluation at every earlier instant (thorough: also two intermediate evaluations over boundary instants + 7 s grid, first 150). non-trivial = chained schedules (all distinct) in which the intermediate evaluation moved the offset and the final evaluation moved it again. Family B (long-lived view across an arbiter-count change): both versions x every ordered pair n1 != n2 of the same counts x start offsets {0,1,n1-1,n1,n1+1,n2-1,n2,n2+1,2n1,3n1} x {no reset, ResetView + offset 0 at the change} x every pair t1 < t2 of {1 s grid 0..%d s} ∪ {boundary instants (up to 1200 s) of the first 6 views under n1 and under n2}: the view evaluated at t1 under n1 and at t2 under n2 vs a fresh view with the same offset/start time that only saw n2, evaluated at t2; non-trivial = cases whose post-change evaluation moved the offset", ns, gridS, r.Pick(60, 150)),
 		"exhaustive":          true,
 		"jobs":                len(jobs),
 		"instants_total":      timePoints,
